@@ -50,7 +50,10 @@ class Registry:
         self.ids = ids or [i + 1 for i in range(self.nc)]
         self.alias = alias
         self.records = self.make_records(presentation)
-        if alias:
+        if alias == 'split':
+            # first id: bare record (the class only); second id (id + ALIAS_OFFSET): the record with the base list
+            self.records = [(c, [c], False) for (c, b, _) in self.records] + [(c, b, True) for (c, b, _) in self.records]
+        elif alias:
             # every class also registered under its second id (id + ALIAS_OFFSET), same base list
             self.records = self.records + [(c, b, True) for (c, b, _) in self.records]
         self.rec_order = rec_order or list(range(len(self.records)))
